@@ -321,7 +321,11 @@ func handleKillEvent(state *internalState, e *executor.Event_Kill) error {
 	activeTask, ok := state.activeTasks[e.GetTaskID()]
 	state.activeTasksMu.RUnlock()
 	if !ok {
-		return errors.New("invalid task ID")
+		// Not (or no longer) one of our tasks, e.g. a repeated KILL or one which crosses the task's own terminal
+		// status update: nothing to kill. An error here would end the event loop and with it every other task.
+		log.WithField("taskId", e.GetTaskID().Value).
+			Warn("received KILL for unknown task, ignoring")
+		return nil
 	}
 
 	go func() {
